@@ -42,8 +42,10 @@ def stepOpt (ts : List String) : Option String :=
     let threads ← threads.toNat?; let osf ← osf.toNat?
     let keys ← intCsv keys
     if !(["s", "u"].contains variant) || !(["exact", "sampling"].contains split) ||
-       !(["pod", "log", "own"].contains elem) then none else
+       !(["pod", "log", "own", "deque", "deque64", "strided", "rev", "str"].contains elem) then none else
     if threads < 1 || threads > 64 || osf < 1 || osf > 64 then pure "bad-op" else
+    -- std::string keys: zero-padded decimals of non-negative keys, comparators lt | gt only
+    if elem == "str" && (cmp == .half || keys.any (· < 0)) then pure "bad-op" else
     let stable := variant == "s"
     let input : List C07.Elem := (List.range keys.length).map fun i => ⟨keys.getD i 0, 0, i⟩
     let P : Params := { lt := cmp.fn, stable := stable, exact := split == "exact", threads := threads, osf := osf }
@@ -55,7 +57,9 @@ def stepOpt (ts : List String) : Option String :=
       let spec := C07.kMerge cmp.fn [input]
       let okSpec := out == (if stable then spec else canon cmp.fn spec)
       let sp := if okSpec then 1 else 0
-      if elem == "pod" then pure s!"out {showElems out} cw - mw - live 0 spec {sp}"
+      -- the iterator category / container (deque, strided, reverse iterator) and the element representation
+      -- (std::string) are outside the model: the model sorts the abstract sequence of (key, index) pairs
+      if !(["log", "own"].contains elem) then pure s!"out {showElems out} cw - mw - live 0 spec {sp}"
       else
         let live : Int := (r.constructed : Int) - r.destroyed
         pure s!"out {showElems out} cw {showWinsN r.copyWindows} mw {showWinsN r.mergeWindows} live {live} spec {sp}"
